@@ -59,6 +59,21 @@ def install(eng):
         B[np.nextafter] = b_np_nextafter
     except Exception:
         pass
+    import functools, binascii
+    B[functools.reduce] = b_reduce
+    B[binascii.crc32] = lambda e, st, a, k, n: SV(KInt, _crc32(e, st, a[0]))
+    try:
+        import numpy as np
+        B[np.asarray] = b_np_asarray
+        B[np.array] = b_np_asarray
+        B[np.nanmin] = lambda e, st, a, k, n: b_np_nanext(e, st, a, k, n, False)
+        B[np.nanmax] = lambda e, st, a, k, n: b_np_nanext(e, st, a, k, n, True)
+        B[np.nanpercentile] = b_np_nanpercentile
+    except Exception:
+        pass
+    M[("list", "sort")] = m_list_sort
+    M[("str", "encode")] = lambda e, st, r, a, k, n: r
+    M[("str", "format")] = m_str_format
     B[_math.exp] = b_math_exp
     B[_math.log] = b_math_log
     import datetime as _dt
@@ -86,7 +101,6 @@ def install(eng):
     M[("set", "add")] = m_set_add
     M[("set", "discard")] = m_set_discard
     M[("set", "remove")] = m_set_remove
-    M[("str", "format")] = lambda e, st, r, a, k, n: SV(KStr, st.fresh("fmt", z3.StringSort()))
     M[("val", "append")] = lambda e, st, r, a, k, n: m_list_append(e, st, e.coerce(st, r, KList(KVal), n), a, k, n)
     M[("val", "get")] = m_val_get
     M[("val", "items")] = m_val_items
@@ -1009,4 +1023,178 @@ def b_math_log(eng, st, args, kwargs, node):
         eng.raise_(ValueError, node)
     r = uf("math_log", F(), F())(x)
     eng.assume(st, f_is_fin(r))
+    return SV(KFloat, r)
+
+
+# --------------------------------------------------------------------------------------------------
+def _crc32(eng, st, sv):
+    t = uf("crc32", z3.StringSort(), z3.IntSort())(eng.coerce(st, sv, KStr).term)
+    st.assume(t >= 0)
+    return t
+
+
+def m_str_format(eng, st, recv, args, kwargs, node):
+    """str.format: an uninterpreted but DETERMINISTIC function of the template and the (boxed) arguments."""
+    if kwargs or len(args) > 3:
+        return SV(KStr, st.fresh("fmt", z3.StringSort()))
+    vs = []
+    for a in args:
+        try:
+            vs.append(eng.box(st, a).term)
+        except Unsupported:
+            return SV(KStr, st.fresh("fmt", z3.StringSort()))
+    f = uf("str_format_%d" % len(vs), z3.StringSort(), *([val_sort()] * len(vs) + [z3.StringSort()]))
+    return SV(KStr, f(recv.term, *vs))
+
+
+def b_reduce(eng, st, args, kwargs, node):
+    """functools.reduce(lambda acc, x: ..., iterable, init): executed as the loop it is, with the invariant given in the
+    contract under loops['reduce'] (accumulator named as the lambda's first parameter, index _i)."""
+    _use("functools.reduce")
+    from .interp import Closure, SpecCtx
+    f, it, init = args[0], args[1], args[2]
+    if not (f.kind is KConst and isinstance(f.const, Closure)):
+        raise Unsupported("reduce with a non-lambda function")
+    lam = f.const.node
+    acc_name, x_name = [a.arg for a in lam.args.args]
+    fr = eng.frame(st)
+    c = fr.contract
+    spec = c.loops.get("reduce") if c is not None else None
+    if spec is None:
+        raise Unsupported("functools.reduce without a loop spec 'reduce' (line %s)" % getattr(node, "lineno", "?"))
+    n, getter = eng.as_sequence(st, it, node)
+    fnctx = getattr(st, "fn_ctx", None)
+    ctx = SpecCtx(fnctx.pre_heap, fnctx.pre_env, pre_nref=fnctx.pre_nref)
+    saved = dict(fr.env)
+    q = fr.fi.qualname if fr.fi else "?"
+
+    def check(phase):
+        for k, inv in enumerate(spec.invariant):
+            st.oblige("%s:reduce:%s/%d" % (q, phase, k), eng.spec_eval(st, inv, ctx), kind=phase,
+                      where="line %s" % getattr(node, "lineno", "?"), info={"clause": inv if isinstance(inv, str) else "inv%d" % k})
+    fr.env["_n"] = SV(KInt, n)
+    fr.env["_i"] = sv_int(0)
+    fr.env[acc_name] = init
+    check("inv-entry")
+    choice = st.decide(2, "reduce")
+    i = st.fresh("rit", z3.IntSort())
+    st.assume(i >= 0)
+    acc = SV(init.kind, st.fresh("racc", sort_of(init.kind)))
+    fr.env["_i"] = SV(KInt, i)
+    fr.env[acc_name] = acc
+    for inv in spec.invariant:
+        eng.assume(st, eng.spec_eval(st, inv, ctx))
+    if choice == 0:
+        st.assume(i < n)
+        if not st.feasible():
+            raise PathCut()
+        fr.env[x_name] = getter(i)
+        new_acc = eng.eval(st, lam.body)
+        fr.env[acc_name] = eng.coerce(st, new_acc, init.kind, node)
+        fr.env["_i"] = SV(KInt, i + 1)
+        check("inv-preserve")
+        raise PathCut()
+    st.assume(i >= n)
+    if not st.feasible():
+        raise PathCut()
+    for k in ("_i", "_n", acc_name, x_name):
+        if k in saved:
+            fr.env[k] = saved[k]
+        else:
+            fr.env.pop(k, None)
+    fr.env["_reduce_n"] = SV(KInt, n)
+    return acc
+
+
+def m_list_sort(eng, st, recv, args, kwargs, node):
+    """list.sort() in place (no key/reverse): the contents become an ordered permutation of the old contents."""
+    _use("list.sort")
+    if args or kwargs:
+        raise Unsupported("list.sort with arguments")
+    eng.check_container_guard(st, recv, node, True)
+    k = recv.kind
+    n = eng.list_len(st, recv)
+    _, e_ = eng.lnames(k)
+    old = eng.harr(st, e_)[recv.term]
+    arr = st.fresh("sorted", z3.ArraySort(z3.IntSort(), sort_of(k.elem)))
+    perm = st.fresh("sortperm", z3.ArraySort(z3.IntSort(), z3.IntSort()))
+    inv = st.fresh("sortinv", z3.ArraySort(z3.IntSort(), z3.IntSort()))
+    i, j = z3.Int("ls_i"), z3.Int("ls_j")
+    if k.elem is KInt:
+        le = arr[i] <= arr[j]
+    elif k.elem is KFloat:
+        le = z3.Not(f_lt(arr[j], arr[i]))
+    else:
+        raise Unsupported("list.sort of %s" % k)
+    eng.assume(st, qforall([j], z3.Implies(z3.And(0 <= j, j < n), z3.And(0 <= perm[j], perm[j] < n, arr[j] == old[perm[j]], inv[perm[j]] == j)), patterns=[arr[j]]))
+    eng.assume(st, qforall([i], z3.Implies(z3.And(0 <= i, i < n), z3.And(0 <= inv[i], inv[i] < n, perm[inv[i]] == i)), patterns=[old[i]]))
+    eng.assume(st, qforall([i, j], z3.Implies(z3.And(0 <= i, i < j, j < n), le), patterns=[z3.MultiPattern(arr[i], arr[j])]))
+    st.heap[e_] = z3.Store(eng.harr(st, e_), recv.term, arr)
+    st.ghost["last_sorted"] = recv
+    st.ghost["last_sorted_heap"] = dict(st.heap)
+    return NONE
+
+
+def b_np_asarray(eng, st, args, kwargs, node):
+    """np.asarray / np.array of a Python list of numbers (optionally dtype=float): a fresh 1-D array = list of floats
+    (ints converted exactly)."""
+    _use("np.asarray")
+    v = args[0]
+    if v.kind is KConst and isinstance(v.const, tuple) and v.const and v.const[0] == "genexp":
+        v = comprehension(eng, st, v.const[1], "list", frame=v.const[2])
+    if not isinstance(v.kind, KList):
+        raise Unsupported("np.asarray of %s" % v.kind)
+    if v.kind.elem is KFloat or ("dtype" not in kwargs and v.kind.elem is KInt):
+        return eng.copy_list(st, SV(KList(v.kind.elem), v.term) if v.kind.region else v)
+    if v.kind.elem is KInt:
+        n = eng.list_len(st, v)
+        out = eng.new_list(st, KList(KFloat), n)
+        _, e_src = eng.lnames(v.kind)
+        _, e_dst = eng.lnames(out.kind)
+        arr = st.fresh("asarr", z3.ArraySort(z3.IntSort(), F()))
+        i = z3.Int("asa_i")
+        eng.assume(st, qforall([i], arr[i] == f_fin(z3.ToReal(eng.harr(st, e_src)[v.term][i])), patterns=[arr[i]]))
+        st.heap[e_dst] = z3.Store(eng.harr(st, e_dst), out.term, arr)
+        return out
+    raise Unsupported("np.asarray of %s" % v.kind)
+
+
+def b_np_nanext(eng, st, args, kwargs, node, is_max):
+    """np.nanmin / np.nanmax of a 1-D float array: NaN if every entry is NaN (numpy warns), otherwise the value of a
+    non-NaN entry that no non-NaN entry beats.  Order facts only: valid for IEEE doubles."""
+    _use("np.nanmin/nanmax")
+    v = args[0]
+    if not (isinstance(v.kind, KList) and v.kind.elem is KFloat):
+        raise Unsupported("np.nanmin/nanmax of %s" % v.kind)
+    n = eng.list_len(st, v)
+    if not eng.spec_mode and not st.branch(n > 0, "nanext-empty"):
+        eng.raise_(ValueError, node)
+    r = st.fresh("nanmax" if is_max else "nanmin", F())
+    i, w = z3.Int("ne_i"), st.fresh("ne_w", z3.IntSort())
+    e = eng.list_get(st, v, i).term
+    allnan = qforall([i], z3.Implies(z3.And(0 <= i, i < n), f_is_nan(e)), patterns=[e])
+    dom = z3.Not(f_lt(r, e)) if is_max else z3.Not(f_lt(e, r))
+    eng.assume(st, z3.If(allnan, f_is_nan(r), z3.And(
+        z3.Not(f_is_nan(r)), 0 <= w, w < n, eng.list_get(st, v, w).term == r,
+        qforall([i], z3.Implies(z3.And(0 <= i, i < n, z3.Not(f_is_nan(e))), dom), patterns=[e]))))
+    return SV(KFloat, r)
+
+
+def b_np_nanpercentile(eng, st, args, kwargs, node):
+    """np.nanpercentile(a, q), 0 <= q <= 100: NaN if every entry is NaN, otherwise a value between the smallest and the
+    largest non-NaN entry (interpolation is not modelled: order facts only)."""
+    _use("np.nanpercentile")
+    v = args[0]
+    if not (isinstance(v.kind, KList) and v.kind.elem is KFloat):
+        raise Unsupported("np.nanpercentile of %s" % v.kind)
+    n = eng.list_len(st, v)
+    r = st.fresh("nanpct", F())
+    i = z3.Int("np_i")
+    lo, hi = st.fresh("np_lo", z3.IntSort()), st.fresh("np_hi", z3.IntSort())
+    e = eng.list_get(st, v, i).term
+    allnan = qforall([i], z3.Implies(z3.And(0 <= i, i < n), f_is_nan(e)), patterns=[e])
+    elo, ehi = eng.list_get(st, v, lo).term, eng.list_get(st, v, hi).term
+    eng.assume(st, z3.If(z3.Or(n == 0, allnan), f_is_nan(r), z3.And(
+        z3.Not(f_is_nan(r)), 0 <= lo, lo < n, 0 <= hi, hi < n, z3.Not(f_is_nan(elo)), z3.Not(f_is_nan(ehi)),
+        z3.Not(f_lt(r, elo)), z3.Not(f_lt(ehi, r)))))
     return SV(KFloat, r)
